@@ -177,7 +177,15 @@ def _run_instance(inst):
                 nat = inst.native(r.model_inputs, *inst.args)
                 summary['xval'] += 1
                 cls = o.get('class') if isinstance(o, dict) else o
-                if _outcome_key(nat) != _outcome_key(cls):
+                if isinstance(nat, list) and nat[:1] == ['concrete re-run failed'] and len(nat) > 1 and nat[1]:
+                    # the concrete re-run of this path (the solver's model as inputs, the REAL code behind the stand-ins: real Diffie-Hellman classes,
+                    # real HMAC / AES) violates the oracle although the symbolic run did not: the stand-in hides the behaviour (e.g. state kept
+                    # inside a real DH object).  It is a failing run of the real code: it goes through the same triage (native replay in a
+                    # fresh process) as a solver counterexample and is reported as a violation, not as 'inconclusive'
+                    lab = nat[1][0] if isinstance(nat[1], (list, tuple)) else nat[1]
+                    summary['violations'].append({'label': str(lab), 'inputs': r.model_inputs, 'detail': okey,
+                                                  'found_by': 'concrete re-run of the path model with the real classes'})
+                elif _outcome_key(nat) != _outcome_key(cls):
                     summary['xval_mismatch'].append({'inputs': r.model_inputs, 'symbolic': okey, 'native': _outcome_key(nat)})
             except Exception as e:
                 summary['xval_mismatch'].append({'inputs': r.model_inputs, 'symbolic': okey,
